@@ -22,3 +22,9 @@ def check(ctx):
                 raise MachineryError(str(mm)[:800])
             ctx.violation(f"[{v}] tree {mm['tid']} show_contexts={mm['ctx']} show_hidden={mm['hidden']}: " + " | ".join(mm["bad"])[:900], mm)
     ctx.sample({"tree": ts[3], "entries": cases[0]["entries"][:8]})
+    # the same specification on trees converted from REAL extracted stacks
+    rbad, rn, _ = m10.real_corpus(ctx, "summary")
+    ctx.replays += rn
+    ctx.note("real_stack_summaries", rn)
+    for b in rbad[:8]:
+        ctx.violation(b[:900], None)
